@@ -48,6 +48,8 @@ def build_engine(sc, emitter='verif', parallel=()):
         if deps is not None:
             flow[sid] = [(d,) for d in deps]
     kw = {}
+    if sc.get('store_schema'):
+        kw['store_schema'] = sc['store_schema']
     if sc.get('precision') is not None:
         kw['global_time_precision'] = sc['precision']
     eng = Engine(
@@ -94,6 +96,23 @@ def run_scenario(sc, watchdog=5.0):
     return rec.events
 
 
+def emit_off_of(sc):
+    """The variables that must NOT appear in rows, by the rule of C12: the flag
+    the declarations give (they agree), overridden by store_schema at leaf or
+    branch level."""
+    allv, off = set(), set()
+    for c in list(sc['procs'].values()) + list(sc.get('steps', {}).values()):
+        allv.update(c['vars'])
+        off.update(c.get('emit_off', []))
+    ss = (sc.get('store_schema') or {}).get('v', {})
+    if '_emit' in ss:
+        off = set() if ss['_emit'] else set(allv)
+    for var, cfg in ss.items():
+        if var != '_emit' and isinstance(cfg, dict) and '_emit' in cfg:
+            (off.discard if cfg['_emit'] else off.add)(var)
+    return sorted(off)
+
+
 def to_records(sc, raw, scale=1):
     """Group raw callbacks syntactically into the records TLC consumes.
 
@@ -116,6 +135,7 @@ def to_records(sc, raw, scale=1):
         'seq': [s for s in sc.get('step_order', list(sc.get('steps', {})))
                 if sc['steps'][s].get('deps') is None],
         'vals': {},
+        'emit_off': emit_off_of(sc),
         'emit_step': tick(sc.get('emit_step', 1)),
         't0': tick(sc.get('t0', 0)),
     }
@@ -272,6 +292,21 @@ def random_scenario(rng, nprocs=None, max_ts=3, max_calls=3, shared=True,
         sc['steps'] = steps
         so = list(sids)
         sc['step_order'] = so
+    allvars = sorted({v for c in list(procs.values()) + list(sc.get('steps', {}).values())
+                      for v in c['vars']})
+    r = rng.random()
+    if r < 0.25:
+        # some variables are declared (by everybody) as not emitted
+        off = [v for v in allvars if rng.random() < 0.4]
+        for c in list(procs.values()) + list(sc.get('steps', {}).values()):
+            c['emit_off'] = [v for v in off if v in c['vars']]
+    if 0.15 < r < 0.45:
+        # flags overridden through store_schema, at leaf or at branch level
+        if rng.random() < 0.3:
+            sc['store_schema'] = {'v': {'_emit': rng.random() < 0.5}}
+        else:
+            sc['store_schema'] = {'v': {v: {'_emit': rng.random() < 0.5}
+                                        for v in allvars if rng.random() < 0.5}}
     return sc
 
 
@@ -298,6 +333,9 @@ def director_scenario(rng, max_ts=3):
     sc = random_scenario(rng, nprocs=rng.randint(2, 3), max_ts=max_ts, shared=True)
     pids = sorted(sc['procs'])
     spare = ['p%d' % (len(pids) + 1), 'p%d' % (len(pids) + 2)]
+    sc.pop('store_schema', None)
+    for c in sc['procs'].values():
+        c.pop('emit_off', None)
     d = sc['procs']['p1']
     sops, alive, free = [], set(pids) - {'p1'}, list(spare)
     for k in range(rng.randint(2, 6)):
